@@ -74,7 +74,7 @@ CHECKS = {
              "each kept index equals the 1-D reduction of its slice; shape = batch + kept dims + group axis; chunked along any axis.",
              "arg-reductions with a single reduced axis only.", "§4 C08"),
     "C09": C("Exhaustive small-scope enumeration of find_group_cohorts + Hypothesis; graph dependency closures; base-3 provenance sums",
-             "The planner is run on every canonical code array up to length 6 (8 thorough) x every chunk composition x merge x "
+             "The planner is run on every canonical code array up to length 6 (7 thorough) x every chunk composition x merge x "
              "expected variants and all small 2-D arrays, against a validity predicate (partition, block coverage, blockwise "
              "only if confined); graphs of every strategy are checked for dependency closure per output chunk; provenance sums "
              "prove every member is counted exactly once.",
